@@ -139,6 +139,7 @@ type history struct {
 	salt   uint64
 	all    []aggsync.Block // every block ever generated (incl. dropped) – for argument pools
 	gerIdx uint32
+	dups   []*bridgesync.Bridge
 }
 
 func newHistory(kind string, g *rand.Rand) *history {
@@ -166,7 +167,7 @@ func (h *history) extend(n int) []aggsync.Block {
 	case "bridge":
 		dc := uint32(len(world.BridgesOf(h.blocks)))
 		out = world.GenBridgeHistory(h.g, world.BridgeOpts{StartBlock: h.lastNum() + 1 + uint64(h.g.Intn(2)), StartDeposit: dc, Blocks: n,
-			MaxEventsBlock: 4, EmptyBlockPct: 15, GapPct: 25, Claims: true, Tokens: true, Salt: h.salt, LegacyPool: h.legacy})
+			MaxEventsBlock: 4, EmptyBlockPct: 15, GapPct: 25, Claims: true, Tokens: true, Salt: h.salt, LegacyPool: h.legacy, DupPct: 20, DupPool: &h.dups})
 	case "l1info":
 		for i := 0; i < n; i++ {
 			out = append(out, h.l1.Next())
